@@ -147,7 +147,7 @@ func runBulk(c caseSpec) ([]obsT, error) {
 	for attempt := 0; ; attempt++ {
 		var obs []obsT
 		err := runCase(c, func(i int, o obsT) { obs = append(obs, o) })
-		if err == errSlip && attempt < 5 {
+		if err == errSlip && attempt < 25 {
 			continue
 		}
 		return obs, err
@@ -163,12 +163,30 @@ func main() {
 		childMain()
 		return
 	}
+	if opts.Extra == "netchild" {
+		netChildMain()
+		return
+	}
 	env = ltenv.NewEnv(3)
 	clockBase = time.Now().UnixNano() - 250*int64(time.Second)
 	out := hlib.NewOut(opts.OutDir)
 	defer out.Close()
 
 	if opts.Replay != "" {
+		var nc netCase
+		if err := hlib.ReplayInput(opts.Replay, &nc); err == nil && nc.Net != "" {
+			mode := "net"
+			if nc.Net == "lim" || nc.Net == "srvlive" {
+				mode = nc.Net
+			}
+			res, err := runNetBatch(mode, nc.Lim, []netCase{nc})
+			if err != nil {
+				fmt.Println("stream case failed:", err)
+				os.Exit(2)
+			}
+			emitNet(out, nc, res[0])
+			return
+		}
 		var c caseSpec
 		if err := hlib.ReplayInput(opts.Replay, &c); err != nil {
 			panic(err)
@@ -214,6 +232,18 @@ func main() {
 		}(i)
 	}
 
+	// stream streams: batches of cases in child processes, same limit of concurrent children
+	njobs := netJobs(opts.Seed, opts.Thorough())
+	for _, j := range njobs {
+		wg.Add(1)
+		go func(j *netJob) {
+			defer wg.Done()
+			sem <- struct{}{}
+			defer func() { <-sem }()
+			j.res, j.err = runNetBatch(j.mode, j.lim, j.cases)
+		}(j)
+	}
+
 	nGuard, nFree, nMal := 200, 250, 150
 	if opts.Thorough() {
 		nGuard, nFree, nMal = 4000, 6000, 3000
@@ -244,6 +274,19 @@ func main() {
 		}
 		emitLive(out, lives[i], liveRes[i])
 	}
-	fmt.Printf("cases: %d (live %d, child crashes %d)\n", out.Count(), len(lives), crashes)
+	netDead := 0
+	for _, j := range njobs {
+		if j.err != nil {
+			fmt.Println("stream batch failed:", j.mode, j.err)
+			os.Exit(2)
+		}
+		for i := range j.cases {
+			if j.res[i].Dead {
+				netDead++
+			}
+			emitNet(out, j.cases[i], j.res[i])
+		}
+	}
+	fmt.Printf("cases: %d (live %d, child crashes %d; stream cases with a dead child %d)\n", out.Count(), len(lives), crashes, netDead)
 	_ = strings.TrimSpace
 }
